@@ -128,6 +128,15 @@ pub fn static_names(n: usize) -> &'static [&'static str] {
     &v[..n.min(v.len())]
 }
 
+/// Force the lazily built name pools (so their one-off allocations never fall inside a
+/// monitored window).
+pub fn warm_up() {
+    let _ = static_names(1);
+    let _ = variant_name(0);
+    let _ = variant_name_alt(0);
+    let _ = intern("warm");
+}
+
 pub fn variant_name(i: usize) -> &'static str {
     static NAMES: std::sync::OnceLock<Vec<&'static str>> = std::sync::OnceLock::new();
     let v = NAMES.get_or_init(|| (0..600).map(|i| &*Box::leak(format!("V{}", i).into_boxed_str())).collect());
